@@ -212,7 +212,10 @@ class Gen:
         if blk:
             # (a block inside a call body sees the body's `caller` by closure, a block inside a def its own frame:
             #  what `caller` names in a block of a call body is left open -> not observed, not used there)
+            # (a block inside a % for of a call body that reads `loop` gets a LoopStack of its own -- RuntimeException
+            #  "No loop context is established": same family as F62/F63, C03's domain -> no `loop` reads in such blocks)
             fctx = ctx.function(ret_ok=(not flags) or self.p["ret_in_flagged"], in_def=True, hcx=ctx.hcx or ctx.in_body,
+                                no_loop=ctx.no_loop or ctx.in_body,
                                 freeze_loop=ctx.freeze_loop or (ctx.loop_refs > 0 and not ctx.no_loop))
             if fctx.hcx:
                 fctx.bsig = None
